@@ -133,7 +133,7 @@ let () =
                 (match prog with
                  | "init" -> tr_init (nextn c) k
                  | "iter" -> tr_iter_ctor (nlist_of c) k
-                 | "iter_fixed" -> tr_iter_ctor_fixed (nlist_of c) k
+                 | "old_iter" -> tr_old_iter_ctor (nlist_of c) k
                  | "copy" -> let rsz = nextn c in tr_copy_ctor rsz (used_of c) k
                  | "assign" -> let r1 = nextn c in let u1 = used_of c in let r2 = nextn c in let u2 = used_of c in tr_assign r1 u1 r2 u2 k
                  | "rebuild" -> let rsz = nextn c in tr_rebuild_bigger rsz (used_of c) k
